@@ -131,7 +131,8 @@ def single_epoch_log_density(tip_heights, node_heights, origin, lam, mu, psi, rh
     """Constant-rate birth-death-sampling density of an oriented tree given the origin (Stadler 2010):
     prod_tips a_i q(y_i) * prod_internal lambda / q(x_i) * 1/q(origin), a = 4 rho-normalised tip values, q from the
     Riccati solution; tips at height 0 are rho-sampled when rho > 0, all others psi-sampled."""
-    mp.mp.dps = 40
+    # working precision: 40 digits beyond what exp(-c1 * origin) eats (a survival probability of 1e-400 still has 40 digits)
+    mp.mp.dps = 40 + int(abs(float(lam) - float(mu) - float(psi)) * float(origin) / 2.0 + 2.0 * (float(lam) * float(psi)) ** 0.5 * float(origin) / 2.0)
     lam, mu, psi, rho = mp.mpf(lam), mp.mpf(mu), mp.mpf(psi), mp.mpf(rho)
     c1 = mp.sqrt((lam - mu - psi) ** 2 + 4 * lam * psi)
     c2 = -(lam - mu - 2 * lam * rho - psi) / c1
@@ -159,4 +160,6 @@ def single_epoch_log_density(tip_heights, node_heights, origin, lam, mu, psi, rh
     tot -= mp.log(q(origin))
     if survival:
         tot -= mp.log(1 - E(origin))
+    if survival == "log-survival-probability":
+        return float(mp.log(1 - E(origin)))
     return float(tot)
